@@ -9,7 +9,7 @@
 From Coq Require Import List Arith NArith ZArith Bool Lia ZifyBool ZifyNat ZifyN.
 From Coq.Strings Require Import Byte.
 From RimeV Require Import Base.Bytes Base.ListX Eng.Keys Eng.Cand Eng.Menu Eng.Segm Eng.Ctx Eng.Engine Eng.Procs
-     Eng.Api Eng.Spec Eng.WfView.
+     Eng.Api Eng.Spec Eng.WfView Eng.Utf8Proofs.
 Import ListNotations.
 
 Section Wf.
@@ -18,22 +18,39 @@ Variable translate : bytes -> seginfo -> list cand.
 Hypothesis Hps : (1 <= cf_page_size cfg)%Z.
 Hypothesis Hlen : forall i s, (Z.of_nat (length (translate i s)) + cf_page_size cfg < 2147483648)%Z.
 Hypothesis Hdel : cf_del_checked cfg = true.
+(** two abstract predicates carried along by the invariant: [MP] holds of every
+    candidate list the translator yields, [IP] of every raw input string (closed
+    under the string operations of Context); instantiated with [True] for the
+    range clauses and with "clean candidates" / "ASCII" for the UTF-8 clause *)
+Variable MP : menu -> Prop.
+Variable IP : bytes -> Prop.
+Hypothesis HMP : forall i s, IP i -> MP (translate i s).
+Hypothesis IP_nil : IP [].
+Hypothesis IP_firstn : forall n l, IP l -> IP (firstn n l).
+Hypothesis IP_skipn : forall n l, IP l -> IP (skipn n l).
+Hypothesis IP_app : forall a b, IP a -> IP b -> IP (a ++ b).
+Hypothesis IP_key : forall z, (32 <= z < 127)%Z -> IP [byte_of_N (Z.to_N z)].
+
+Definition op_ok (o : op) : Prop := match o with OpSetInput v => IP v | _ => True end.
 
 Definition menu_bounded (m : menu) : Prop := (Z.of_nat (length m) + cf_page_size cfg < 2147483648)%Z.
 
 Definition seg_inv (g : segment) : Prop :=
-  forall m, s_menu g = Some m -> menu_bounded m /\ (m <> [] -> (s_sel g < menu_count m)%N).
+  s_prompt g = [] /\
+  forall m, s_menu g = Some m -> menu_bounded m /\ (m <> [] -> (s_sel g < menu_count m)%N) /\ MP m.
 Definition segs_inv (l : list segment) : Prop := Forall seg_inv l.
 Definition cinv (c : context) : Prop :=
-  cx_caret c <= length (cx_input c) /\ segs_inv (sg_segs (cx_comp c)).
+  cx_caret c <= length (cx_input c) /\ segs_inv (sg_segs (cx_comp c)) /\
+  IP (cx_input c) /\ IP (sg_input (cx_comp c)).
 Definition sinv (s : state) : Prop := cinv (st_ctx s).
 
 (** ---- segments ---- *)
-Lemma seg_inv_same g g' : s_menu g' = s_menu g -> s_sel g' = s_sel g -> seg_inv g -> seg_inv g'.
-Proof. intros Hm Hs H m. rewrite Hm, Hs. apply H. Qed.
+Lemma seg_inv_same g g' :
+  s_menu g' = s_menu g -> s_sel g' = s_sel g -> s_prompt g' = s_prompt g -> seg_inv g -> seg_inv g'.
+Proof. intros Hm Hs Hp (H0 & H). split; [rewrite Hp; exact H0|]. intros m. rewrite Hm, Hs. apply H. Qed.
 
-Lemma seg_inv_nomenu g : s_menu g = None -> seg_inv g.
-Proof. intros H m. rewrite H. discriminate. Qed.
+Lemma seg_inv_nomenu g : s_menu g = None -> s_prompt g = [] -> seg_inv g.
+Proof. intros H Hp. split; [exact Hp|]. intros m. rewrite H. discriminate. Qed.
 
 Lemma seg_inv_status g x : seg_inv g -> seg_inv (seg_with_status g x).
 Proof. apply seg_inv_same; reflexivity. Qed.
@@ -60,7 +77,10 @@ Qed.
 (** writing an index at which the menu has a candidate *)
 Lemma seg_inv_sel_at g i : seg_inv g -> (forall m, s_menu g = Some m -> m <> [] -> (i < menu_count m)%N) ->
   seg_inv (seg_with_sel g i).
-Proof. intros H Hi m Hm. cbn in Hm. split; [apply (H m Hm) | cbn; apply Hi; assumption]. Qed.
+Proof.
+  intros (H0 & H) Hi. split; [exact H0|]. intros m Hm. cbn in Hm. destruct (H m Hm) as (Hb & _ & Hmp).
+  split; [exact Hb|]. split; [cbn; apply Hi; assumption | exact Hmp].
+Qed.
 
 Lemma cand_at_some g i c : cand_at g i = Some c -> forall m, s_menu g = Some m -> (i < menu_count m)%N.
 Proof.
@@ -170,26 +190,94 @@ Proof.
   destruct (status_geb (s_status g) SSelected); cbn [fst]; [apply forward_inv|]; rewrite E2; exact H2.
 Qed.
 
-Lemma translate_one_inv inp g : seg_inv g -> seg_inv (fst (translate_one translate inp g)).
+Lemma substr_se_ip s pos en : IP s -> IP (fst (substr_se s pos en)).
 Proof.
-  intros H. unfold translate_one. destruct (status_geb (s_status g) SGuess); [exact H|].
-  destruct (substr_se inp (s_start g) (s_end g)) as [s ok]. cbn [fst].
-  intros m Hm. cbn in Hm. injection Hm as <-. split; [apply Hlen|].
+  intros H. unfold substr_se. destruct (length s <? pos); [exact IP_nil|].
+  destruct (pos <=? en); cbn [fst]; [apply IP_firstn|]; apply IP_skipn, H.
+Qed.
+
+Lemma translate_one_inv inp g : IP inp -> seg_inv g -> seg_inv (fst (translate_one translate inp g)).
+Proof.
+  intros Hinp H. unfold translate_one. destruct (status_geb (s_status g) SGuess); [exact H|].
+  pose proof (substr_se_ip inp (s_start g) (s_end g) Hinp) as Hsub.
+  destruct (substr_se inp (s_start g) (s_end g)) as [s ok]. cbn [fst] in *.
+  split; [exact (proj1 H)|].
+  intros m Hm. cbn in Hm. injection Hm as <-. split; [apply Hlen|]. split; [|apply HMP; exact Hsub].
   intros Hne. cbn [s_sel]. unfold menu_count. destruct (translate s (seg_info g)); [congruence|]. cbn [length]. lia.
 Qed.
 
-Lemma translate_list_inv inp l : segs_inv l -> segs_inv (fst (translate_list translate inp l)).
+Lemma translate_list_inv inp l : IP inp -> segs_inv l -> segs_inv (fst (translate_list translate inp l)).
 Proof.
-  induction l as [|g r IH]; intros H; [constructor|]. inversion H; subst. cbn [translate_list].
-  pose proof (translate_one_inv inp g H2) as H1. destruct (translate_one translate inp g) as [g' ok1].
+  intros Hinp. induction l as [|g r IH]; intros H; [constructor|]. inversion H; subst. cbn [translate_list].
+  pose proof (translate_one_inv inp g Hinp H2) as H1. destruct (translate_one translate inp g) as [g' ok1].
   specialize (IH H3). destruct (translate_list translate inp r) as [r' ok2]. cbn [fst] in *. constructor; assumption.
 Qed.
 
-Lemma translate_segs_inv sg : segs_inv (sg_segs sg) -> segs_inv (sg_segs (fst (translate_segs translate sg))).
+Lemma translate_segs_inv sg :
+  IP (sg_input sg) -> segs_inv (sg_segs sg) -> segs_inv (sg_segs (fst (translate_segs translate sg))).
 Proof.
-  intros H. unfold translate_segs. pose proof (translate_list_inv (sg_input sg) _ H) as H1.
+  intros Hinp H. unfold translate_segs. pose proof (translate_list_inv (sg_input sg) _ Hinp H) as H1.
   destruct (translate_list translate (sg_input sg) (sg_segs sg)) as [l ok]. exact H1.
 Qed.
+
+(** ---- the segmentation's own input is only written by Reset ---- *)
+Lemma forward_input sg : sg_input (fst (forward sg)) = sg_input sg.
+Proof. unfold forward. destruct (sg_segs sg) as [|g r]; [reflexivity|]. destruct (s_start g =? s_end g); reflexivity. Qed.
+Lemma trim_input sg : sg_input (fst (trim sg)) = sg_input sg.
+Proof. unfold trim. destruct (sg_segs sg) as [|g r]; [reflexivity|]. destruct (s_start g =? s_end g); reflexivity. Qed.
+Lemma set_back_input sg g : sg_input (sg_set_back sg g) = sg_input sg.
+Proof. unfold sg_set_back. destruct (sg_segs sg); reflexivity. Qed.
+Lemma reset_input_input sg ni : sg_input (reset_input sg ni) = ni.
+Proof. unfold reset_input. destruct (dispose _ _). reflexivity. Qed.
+Lemma add_segment_input sg g : sg_input (fst (add_segment sg g)) = sg_input sg.
+Proof.
+  unfold add_segment. destruct (negb _); [reflexivity|]. destruct (sg_segs sg) as [|l r]; [reflexivity|].
+  destruct (s_end g <? s_end l); [reflexivity|]. destruct (s_end l <? s_end g); reflexivity.
+Qed.
+Lemma abc_proceed_input sg : sg_input (abc_proceed cfg sg) = sg_input sg.
+Proof. unfold abc_proceed. destruct (cur_start sg <? _); [apply add_segment_input | reflexivity]. Qed.
+Lemma fallback_proceed_input sg : sg_input (fallback_proceed sg) = sg_input sg.
+Proof.
+  unfold fallback_proceed. destruct (0 <? cur_len sg); [reflexivity|].
+  destruct (cur_start sg =? length (sg_input sg)); [reflexivity|].
+  set (sg1 := match sg_segs sg with
+              | g :: _ => if s_start g =? s_end g then sg_pop_back sg else sg
+              | [] => sg
+              end).
+  assert (E1 : sg_input sg1 = sg_input sg).
+  { subst sg1. destruct (sg_segs sg) as [|g r]; [reflexivity|]. destruct (s_start g =? s_end g); reflexivity. }
+  assert (Ea : sg_input (fst (add_segment (fst (forward sg1))
+                   (seg_with_tags (new_segment (cur_start sg) (S (cur_start sg))) [TRaw]))) = sg_input sg)
+    by (rewrite add_segment_input, forward_input; exact E1).
+  destruct (sg_segs sg1) as [|last r]; [exact Ea|]. destruct (has_tag TRaw (s_tags last)); [exact E1 | exact Ea].
+Qed.
+Lemma calc_loop_input fuel caret sg : sg_input (fst (calc_loop cfg fuel caret sg)) = sg_input sg.
+Proof.
+  revert sg. induction fuel as [|f IH]; intros sg; cbn [calc_loop].
+  - destruct (has_finished sg); reflexivity.
+  - destruct (has_finished sg); [reflexivity|].
+    assert (E2 : sg_input (fallback_proceed (abc_proceed cfg sg)) = sg_input sg)
+      by (rewrite fallback_proceed_input; apply abc_proceed_input).
+    destruct (cur_start sg =? cur_end (fallback_proceed (abc_proceed cfg sg))); [exact E2|].
+    destruct (caret <=? cur_start sg); [exact E2|]. rewrite IH.
+    destruct (has_finished (fallback_proceed (abc_proceed cfg sg))); [exact E2 | rewrite forward_input; exact E2].
+Qed.
+Lemma calc_segmentation_input caret sg : sg_input (fst (calc_segmentation cfg caret sg)) = sg_input sg.
+Proof.
+  unfold calc_segmentation. pose proof (calc_loop_input (S (length (sg_input sg))) caret sg) as E1.
+  destruct (calc_loop cfg (S (length (sg_input sg))) caret sg) as [sg1 ok]. cbn [fst] in *.
+  set (sg2 := match sg_segs sg1 with
+              | g :: _ => if has_tag TPlaceholder (s_tags g) then sg1 else fst (trim sg1)
+              | [] => sg1
+              end).
+  assert (E2 : sg_input sg2 = sg_input sg).
+  { subst sg2. destruct (sg_segs sg1) as [|g r]; [exact E1|].
+    destruct (has_tag TPlaceholder (s_tags g)); [exact E1 | rewrite trim_input; exact E1]. }
+  destruct (sg_segs sg2) as [|g r]; [exact E2|].
+  destruct (status_geb (s_status g) SSelected); [rewrite forward_input|]; exact E2.
+Qed.
+Lemma translate_segs_input sg : sg_input (fst (translate_segs translate sg)) = sg_input sg.
+Proof. unfold translate_segs. destruct (translate_list translate (sg_input sg) (sg_segs sg)). reflexivity. Qed.
 
 (** ---- contexts ---- *)
 Lemma cinv_err c e : cinv c -> cinv (ctx_fail c e).
@@ -198,12 +286,15 @@ Lemma cinv_check c b e : cinv c -> cinv (ctx_check c b e).
 Proof. intros H. unfold ctx_check. destruct b; exact H. Qed.
 Lemma cinv_opts c o : cinv c -> cinv (ctx_with_opts c o).
 Proof. intros H; exact H. Qed.
-Lemma cinv_comp c sg : cinv c -> segs_inv (sg_segs sg) -> cinv (ctx_with_comp c sg).
-Proof. intros (H1 & _) H2. split; assumption. Qed.
+Lemma cinv_comp c sg :
+  cinv c -> segs_inv (sg_segs sg) -> sg_input sg = sg_input (cx_comp c) -> cinv (ctx_with_comp c sg).
+Proof. intros (H1 & _ & H3 & H4) H2 E. repeat split; auto. cbn. rewrite E. exact H4. Qed.
+Lemma cinv_segs c : cinv c -> segs_inv (sg_segs (cx_comp c)).
+Proof. intros H; apply H. Qed.
 
 Lemma compose_inv c : cinv c -> cinv (compose cfg translate c).
 Proof.
-  intros (Hc & Hs). unfold compose.
+  intros (Hc & Hs & Hi & Hci). unfold compose.
   set (sg0 := reset_input (cx_comp c) (firstn (cx_caret c) (cx_input c))).
   assert (H0 : segs_inv (sg_segs sg0)) by (apply reset_input_inv; exact Hs).
   set (sg1 := if (cx_caret c <? length (cx_input c)) && (cx_caret c =? confirmed_pos sg0)
@@ -212,71 +303,93 @@ Proof.
   { subst sg1. destruct ((cx_caret c <? length (cx_input c)) && (cx_caret c =? confirmed_pos sg0));
       [apply reset_input_inv|]; exact H0. }
   pose proof (calc_segmentation_inv (cx_caret c) sg1 H1) as H2.
-  destruct (calc_segmentation cfg (cx_caret c) sg1) as [sg2 okf]. cbn [fst] in H2.
-  pose proof (translate_segs_inv sg2 H2) as H3.
-  destruct (translate_segs translate sg2) as [sg3 oks]. cbn [fst] in H3.
-  apply cinv_check, cinv_check. split; [exact Hc | exact H3].
+  assert (Hi1 : IP (sg_input sg1)).
+  { subst sg1. destruct ((cx_caret c <? length (cx_input c)) && (cx_caret c =? confirmed_pos sg0));
+      [rewrite reset_input_input; exact Hi | subst sg0; rewrite reset_input_input; apply IP_firstn; exact Hi]. }
+  pose proof (calc_segmentation_input (cx_caret c) sg1) as Ci.
+  destruct (calc_segmentation cfg (cx_caret c) sg1) as [sg2 okf] eqn:Ec. cbn [fst] in H2, Ci.
+  assert (Hi2 : IP (sg_input sg2)) by (rewrite Ci; exact Hi1).
+  pose proof (translate_segs_inv sg2 Hi2 H2) as H3.
+  destruct (translate_segs translate sg2) as [sg3 oks] eqn:Et. cbn [fst] in H3.
+  apply cinv_check, cinv_check. split; [exact Hc|]. split; [exact H3|]. split; [exact Hi|].
+  cbn [ctx_with_comp cx_comp].
+  assert (E3 : sg_input sg3 = sg_input sg2).
+  { pose proof (translate_segs_input sg2) as T. rewrite Et in T. exact T. }
+  rewrite E3. exact Hi2.
 Qed.
 
 Lemma compose_with_input_inv c i k :
-  cinv c -> k <= length i -> cinv (compose cfg translate (ctx_with_input c i k)).
-Proof. intros (_ & Hs) Hk. apply compose_inv. split; [exact Hk | exact Hs]. Qed.
+  cinv c -> k <= length i -> IP i -> cinv (compose cfg translate (ctx_with_input c i k)).
+Proof. intros (_ & Hs & _ & Hci) Hk Hi. apply compose_inv. repeat split; assumption. Qed.
 
-Lemma push_input_inv c ch : cinv c -> cinv (push_input cfg translate c ch).
+Lemma cinv_ip c : cinv c -> IP (cx_input c).
+Proof. intros H; apply H. Qed.
+
+Lemma push_input_inv c ch : cinv c -> IP [ch] -> cinv (push_input cfg translate c ch).
 Proof.
-  intros H. unfold push_input. destruct (length (cx_input c) <=? cx_caret c) eqn:E.
-  - apply compose_with_input_inv; [exact H|]. rewrite app_length. cbn. lia.
-  - apply Nat.leb_gt in E. apply compose_with_input_inv; [exact H|].
-    rewrite app_length, firstn_length. cbn [length]. rewrite skipn_length. lia.
+  intros H Hch. pose proof (cinv_ip c H) as Hi. unfold push_input. destruct (length (cx_input c) <=? cx_caret c) eqn:E.
+  - apply compose_with_input_inv; [exact H| |apply IP_app; assumption]. rewrite app_length. cbn. lia.
+  - apply Nat.leb_gt in E. apply compose_with_input_inv; [exact H| |].
+    + rewrite app_length, firstn_length. cbn [length]. rewrite skipn_length. lia.
+    + apply IP_app; [apply IP_firstn; exact Hi|]. apply (IP_app [ch]); [exact Hch | apply IP_skipn; exact Hi].
 Qed.
 
 Lemma pop_input_inv c n : cinv c -> cinv (fst (pop_input cfg translate c n)).
 Proof.
   intros H. unfold pop_input. destruct (cx_caret c <? n) eqn:E; [exact H|]. apply Nat.ltb_ge in E.
-  cbn [fst]. apply compose_with_input_inv; [exact H|]. destruct H as (Hc & _).
-  rewrite app_length, firstn_length, skipn_length. lia.
+  cbn [fst]. pose proof (cinv_ip c H) as Hi. apply compose_with_input_inv; [exact H| |].
+  - destruct H as (Hc & _). rewrite app_length, firstn_length, skipn_length. lia.
+  - apply IP_app; [apply IP_firstn | apply IP_skipn]; exact Hi.
 Qed.
 
 Lemma delete_input_inv c n : cinv c -> cinv (fst (delete_input cfg translate c n)).
 Proof.
   intros H. unfold delete_input. destruct (length (cx_input c) <? cx_caret c + n) eqn:E; [exact H|].
-  apply Nat.ltb_ge in E. cbn [fst]. apply compose_with_input_inv; [exact H|].
-  rewrite app_length, firstn_length, skipn_length. lia.
+  apply Nat.ltb_ge in E. cbn [fst]. pose proof (cinv_ip c H) as Hi. apply compose_with_input_inv; [exact H| |].
+  - rewrite app_length, firstn_length, skipn_length. lia.
+  - apply IP_app; [apply IP_firstn | apply IP_skipn]; exact Hi.
 Qed.
 
 Lemma clear_inv c : cinv c -> cinv (clear cfg translate c).
-Proof. intros H. unfold clear. apply compose_inv. split; cbn; [lia | constructor]. Qed.
+Proof.
+  intros H. unfold clear. apply compose_inv. repeat split; cbn; [lia | constructor | exact IP_nil | apply H].
+Qed.
 
 Lemma set_caret_pos_inv c pos : cinv c -> cinv (set_caret_pos cfg translate c pos).
 Proof.
-  intros H. unfold set_caret_pos. apply compose_with_input_inv; [exact H|].
+  intros H. unfold set_caret_pos. apply compose_with_input_inv; [exact H| |apply (cinv_ip c H)].
   destruct (length (cx_input c) <? pos) eqn:E; [lia|]. apply Nat.ltb_ge in E. exact E.
 Qed.
 
-Lemma set_input_inv c v : cinv c -> cinv (set_input cfg translate c v).
-Proof. intros H. unfold set_input. apply compose_with_input_inv; [exact H | lia]. Qed.
+Lemma set_input_inv c v : cinv c -> IP v -> cinv (set_input cfg translate c v).
+Proof. intros H Hv. unfold set_input. apply compose_with_input_inv; [exact H | lia | exact Hv]. Qed.
 
 Lemma back_inv c g r : cinv c -> sg_segs (cx_comp c) = g :: r -> seg_inv g.
-Proof. intros (_ & H) E. rewrite E in H. inversion H; assumption. Qed.
+Proof. intros (_ & H & _) E. rewrite E in H. inversion H; assumption. Qed.
 
 Lemma cinv_set_back c g : cinv c -> seg_inv g -> cinv (ctx_with_comp c (sg_set_back (cx_comp c) g)).
-Proof. intros H Hg. apply cinv_comp; [exact H|]. apply set_back_inv; [apply H | exact Hg]. Qed.
+Proof.
+  intros H Hg. apply cinv_comp; [exact H| |apply set_back_input]. apply set_back_inv; [apply H | exact Hg].
+Qed.
 
 Lemma reopen_previous_segment_inv c : cinv c -> cinv (fst (reopen_previous_segment cfg translate c)).
 Proof.
   intros H. unfold reopen_previous_segment.
-  pose proof (trim_inv (cx_comp c) (proj2 H)) as Ht.
-  destruct (trim (cx_comp c)) as [sg trimmed]. cbn [fst] in Ht. destruct trimmed; [|exact H]. cbn [fst].
-  apply compose_inv. apply cinv_comp; [exact H|].
-  destruct (sg_segs sg) as [|g r] eqn:E; [rewrite E; exact Ht|].
-  destruct (status_geb (s_status g) SSelected); [|rewrite E; exact Ht].
-  apply set_back_inv; [rewrite E; exact Ht|]. apply seg_inv_reopen. inversion Ht; assumption.
+  pose proof (trim_inv (cx_comp c) (cinv_segs c H)) as Ht. pose proof (trim_input (cx_comp c)) as Ei.
+  destruct (trim (cx_comp c)) as [sg trimmed]. cbn [fst] in Ht, Ei. destruct trimmed; [|exact H]. cbn [fst].
+  apply compose_inv. apply cinv_comp; [exact H| |].
+  - destruct (sg_segs sg) as [|g r] eqn:E; [rewrite E; exact Ht|].
+    destruct (status_geb (s_status g) SSelected); [|rewrite E; exact Ht].
+    apply set_back_inv; [rewrite E; exact Ht|]. apply seg_inv_reopen. inversion Ht; assumption.
+  - destruct (sg_segs sg) as [|g r]; [exact Ei|].
+    destruct (status_geb (s_status g) SSelected); [rewrite set_back_input|]; exact Ei.
 Qed.
 
 Lemma clear_previous_segment_inv c : cinv c -> cinv (fst (clear_previous_segment cfg translate c)).
 Proof.
   intros H. unfold clear_previous_segment. destruct (sg_segs (cx_comp c)) as [|g r]; [exact H|].
-  destruct (length (cx_input c) <=? s_start g); [exact H|]. cbn [fst]. apply set_input_inv; exact H.
+  destruct (length (cx_input c) <=? s_start g); [exact H|]. cbn [fst].
+  apply set_input_inv; [exact H | apply IP_firstn, (cinv_ip c H)].
 Qed.
 
 Lemma reopen_sel_rev_inv l k l' : segs_inv l -> reopen_sel_rev l k = Some l' -> segs_inv l'.
@@ -291,7 +404,7 @@ Lemma reopen_previous_selection_inv c : cinv c -> cinv (fst (reopen_previous_sel
 Proof.
   intros H. unfold reopen_previous_selection.
   destruct (reopen_sel_rev (sg_segs (cx_comp c)) (cx_caret c)) as [l|] eqn:E; [|exact H]. cbn [fst].
-  apply compose_inv, cinv_comp; [exact H|]. apply (reopen_sel_rev_inv _ _ _ (proj2 H) E).
+  apply compose_inv, cinv_comp; [exact H| |reflexivity]. apply (reopen_sel_rev_inv _ _ _ (cinv_segs c H) E).
 Qed.
 
 Lemma drop_unselected_inv l : segs_inv l -> segs_inv (fst (drop_unselected l)).
@@ -302,9 +415,10 @@ Qed.
 
 Lemma clear_non_confirmed_inv c : cinv c -> cinv (fst (clear_non_confirmed c)).
 Proof.
-  intros H. unfold clear_non_confirmed. pose proof (drop_unselected_inv _ (proj2 H)) as Hd.
+  intros H. unfold clear_non_confirmed. pose proof (drop_unselected_inv _ (cinv_segs c H)) as Hd.
   destruct (drop_unselected (sg_segs (cx_comp c))) as [l reverted]. cbn [fst] in Hd.
-  destruct reverted; [|exact H]. cbn [fst]. apply cinv_comp; [exact H|].
+  destruct reverted; [|exact H]. cbn [fst].
+  apply cinv_comp; [exact H| |apply (forward_input (sg_with_segs (cx_comp c) l))].
   apply (forward_inv (sg_with_segs (cx_comp c) l)). exact Hd.
 Qed.
 
@@ -322,7 +436,7 @@ Proof.
 Qed.
 
 Lemma begin_editing_inv c : cinv c -> cinv (begin_editing c).
-Proof. intros H. unfold begin_editing. apply cinv_comp; [exact H|]. apply begin_editing_rev_inv, H. Qed.
+Proof. intros H. unfold begin_editing. apply cinv_comp; [exact H| |reflexivity]. apply begin_editing_rev_inv, H. Qed.
 
 Lemma highlight_inv c i : cinv c -> cinv (fst (highlight cfg translate c i)).
 Proof.
@@ -375,10 +489,11 @@ Proof.
     assert (H1 : cinv c1) by (apply cinv_set_back; [exact H | apply seg_inv_status, Hg]).
     destruct (get_option c1 opt_auto_commit).
     + apply commit_inv. exact H1.
-    + apply sinv_with, cinv_comp; [exact H1|]. apply forward_inv, H1.
+    + apply sinv_with, cinv_comp; [exact H1| |apply forward_input]. apply forward_inv, H1.
   - set (c1 := ctx_with_comp (st_ctx s) (fst (forward (sg_set_back (cx_comp (st_ctx s)) (seg_close g0))))).
     assert (H1 : cinv c1).
-    { apply cinv_comp; [exact H|]. apply forward_inv, set_back_inv; [apply H | exact Hg]. }
+    { apply cinv_comp; [exact H| |rewrite forward_input; apply set_back_input].
+      apply forward_inv, set_back_inv; [apply H | exact Hg]. }
     destruct (cx_caret (st_ctx s) <=? s_end (seg_close g0)); apply sinv_with;
       [apply set_caret_pos_inv | apply compose_inv]; exact H1.
 Qed.
@@ -430,7 +545,7 @@ Lemma sel_small g m :
   seg_inv g -> s_menu g = Some m -> m <> [] ->
   int_of_size (s_sel g) = Z.of_N (s_sel g) /\ (Z.of_N (s_sel g) < Z.of_nat (length m))%Z /\ menu_bounded m.
 Proof.
-  intros H Hm Hne. destruct (H m Hm) as (Hb & Hs). specialize (Hs Hne). unfold menu_count in Hs.
+  intros H Hm Hne. destruct (proj2 H m Hm) as (Hb & Hs & _). specialize (Hs Hne). unfold menu_count in Hs.
   assert ((Z.of_N (s_sel g) < Z.of_nat (length m))%Z) by lia.
   split; [apply int_of_size_small; unfold menu_bounded in Hb; lia | auto].
 Qed.
@@ -450,7 +565,7 @@ Lemma set_sel_paging_inv c z :
 Proof.
   intros H Hz. unfold set_sel_paging. apply with_back_inv; [exact H|]. intros g r E Hg.
   apply seg_inv_tags, seg_inv_sel_at; [exact Hg|]. intros m Hm Hne.
-  specialize (Hz g r m E Hm Hne). destruct (Hg m Hm) as (Hb & _). unfold menu_bounded in Hb.
+  specialize (Hz g r m E Hm Hne). destruct (proj2 Hg m Hm) as (Hb & _). unfold menu_bounded in Hb.
   rewrite size_of_int_small by lia. unfold menu_count. lia.
 Qed.
 
@@ -584,8 +699,12 @@ Qed.
 Lemma speller_process_inv s k : sinv s -> sinv (fst (speller_process cfg translate s k)).
 Proof.
   intros H. unfold speller_process.
+  destruct (k_release k || k_ctrl k || k_alt k || k_super k); [exact H|].
+  destruct ((k_code k <? 32) || (127 <=? k_code k))%Z eqn:Er; [exact H|].
+  apply orb_false_iff in Er as (E1 & E2). apply Z.ltb_ge in E1. apply Z.leb_gt in E2.
   repeat match goal with |- sinv (fst (if ?b then _ else _)) => destruct b; [exact H|] end.
-  cbn [fst]. apply on_ctx_inv; [exact H|]. intros c Hc. apply begin_editing_inv, push_input_inv, Hc.
+  cbn [fst]. apply on_ctx_inv; [exact H|]. intros c Hc.
+  apply begin_editing_inv, push_input_inv; [exact Hc|]. apply IP_key. lia.
 Qed.
 
 (** ---- Navigator ---- *)
@@ -689,10 +808,12 @@ Proof.
     apply kbp_process_inv; [intros; apply run_editor_action_inv; assumption | exact H]. }
   destruct (if is_composing (st_ctx s) then _ else _) as [s1 r]. cbn [fst] in H1.
   destruct (negb (presult_is_noop r)); [exact H1|].
-  match goal with |- sinv (fst (if ?b then _ else _)) => destruct b end; [|exact H1].
+  match goal with |- sinv (fst (if ?b then _ else _)) => destruct b eqn:Eb end; [|exact H1].
   destruct (editor_char_handler cfg); cbn [fst]; try exact H1.
   - apply commit_inv, H1.
-  - apply on_ctx_inv; [exact H1|]. intros c Hc. apply begin_editing_inv, push_input_inv, Hc.
+  - apply on_ctx_inv; [exact H1|]. intros c Hc. apply begin_editing_inv, push_input_inv; [exact Hc|].
+    apply IP_key. apply andb_prop in Eb as (Eb & E2). apply andb_prop in Eb as (_ & E1).
+    apply Z.ltb_lt in E1, E2. lia.
 Qed.
 
 Lemma shape_process_inv s k : sinv s -> sinv (fst (shape_process s k)).
@@ -740,11 +861,11 @@ Proof.
   apply do_highlight_inv. apply sinv_with, cinv_set_back; [exact H|]. apply seg_inv_tags, (back_inv _ _ _ H E).
 Qed.
 
-Lemma exec_inv s o : sinv s -> sinv (fst (exec cfg translate s o)).
+Lemma exec_inv s o : sinv s -> op_ok o -> sinv (fst (exec cfg translate s o)).
 Proof.
-  intros H. destruct o; cbn [exec].
+  intros H Ho. destruct o; cbn [exec].
   - pose proof (process_key_inv s (mkKey code mask) H) as H1. destruct (process_key cfg translate s _). exact H1.
-  - apply sinv_with, set_input_inv, H.
+  - apply sinv_with, set_input_inv; [exact H | exact Ho].
   - apply sinv_with, set_caret_pos_inv, H.
   - pose proof (select_inv s i H) as H1. destruct (select cfg translate s i). exact H1.
   - pose proof (on_current_page_inv s i (select cfg translate) (fun s n Hs => select_inv s n Hs) H) as H1.
@@ -766,10 +887,10 @@ Proof.
   - apply sinv_with, set_option_inv, H.
 Qed.
 
-Lemma step_inv s o : sinv s -> sinv (fst (step cfg translate s o)).
+Lemma step_inv s o : sinv s -> op_ok o -> sinv (fst (step cfg translate s o)).
 Proof.
-  intros H. unfold step. destruct (cx_err (st_ctx s)); [exact H|].
-  pose proof (exec_inv s o H) as H1. destruct (exec cfg translate s o) as [s1 r]. cbn [fst] in H1.
+  intros H Ho. unfold step. destruct (cx_err (st_ctx s)); [exact H|].
+  pose proof (exec_inv s o H Ho) as H1. destruct (exec cfg translate s o) as [s1 r]. cbn [fst] in H1.
   destruct (view_of cfg s1) as [v ve].
   assert (H2 : sinv (match ve with Some e => st_with_ctx s1 (ctx_fail (st_ctx s1) e) | None => s1 end))
     by (destruct ve; exact H1).
@@ -777,7 +898,7 @@ Proof.
 Qed.
 
 Lemma init_inv : sinv (init_state cfg).
-Proof. split; cbn; [lia | constructor]. Qed.
+Proof. repeat split; cbn; [lia | constructor | exact IP_nil | exact IP_nil]. Qed.
 
 (** ---- everything [view_of] reports is well-formed ---- *)
 Ltac Zify.zify_post_hook ::= Z.div_mod_to_equations.
@@ -843,27 +964,121 @@ Proof.
 Qed.
 
 (** ---- all histories ---- *)
-Lemma step_wf s o : sinv s -> wf_obsb (snd (step cfg translate s o)) = true.
+Lemma step_wf s o : sinv s -> op_ok o -> wf_obsb (snd (step cfg translate s o)) = true.
 Proof.
-  intros H. unfold step. destruct (cx_err (st_ctx s)); [reflexivity|].
-  pose proof (exec_inv s o H) as H1.
+  intros H Ho. unfold step. destruct (cx_err (st_ctx s)); [reflexivity|].
+  pose proof (exec_inv s o H Ho) as H1.
   destruct (exec cfg translate s o) as [s1 r]. cbn [fst] in H1.
   pose proof (view_wf s1 H1) as Hv. destruct (view_of cfg s1) as [v ve]. cbn [fst] in Hv.
   destruct (cx_err (st_ctx (match ve with Some e => st_with_ctx s1 (ctx_fail (st_ctx s1) e) | None => s1 end)));
     [reflexivity | exact Hv].
 Qed.
 
-Lemma run_from_wf ops : forall s, sinv s -> forallb wf_obsb (snd (run_from cfg translate s ops)) = true.
+Lemma run_from_wf ops : forall s, sinv s -> Forall op_ok ops -> forallb wf_obsb (snd (run_from cfg translate s ops)) = true.
 Proof.
-  induction ops as [|o r IH]; intros s H; [reflexivity|]. cbn [run_from].
-  pose proof (step_wf s o H) as Hw. pose proof (step_inv s o H) as Hi.
+  induction ops as [|o r IH]; intros s H Hops; [reflexivity|]. cbn [run_from].
+  inversion Hops as [|? ? Ho Hr]; subst.
+  pose proof (step_wf s o H Ho) as Hw. pose proof (step_inv s o H Ho) as Hi.
   destruct (step cfg translate s o) as [s1 ob]. cbn [fst snd] in *.
-  specialize (IH s1 Hi). destruct (run_from cfg translate s1 r) as [s2 obs]. cbn [snd forallb] in *.
+  specialize (IH s1 Hi Hr). destruct (run_from cfg translate s1 r) as [s2 obs]. cbn [snd forallb] in *.
   now rewrite Hw, IH.
 Qed.
 
-Theorem wf_reported ops : forallb wf_obsb (snd (run cfg translate ops)) = true.
+Theorem wf_reported_gen ops : Forall op_ok ops -> forallb wf_obsb (snd (run cfg translate ops)) = true.
 Proof. apply run_from_wf, init_inv. Qed.
 
 
+(** ---- the UTF-8 clause: with [IP] = ASCII and [MP] = clean candidates the
+    reported preedit positions are character boundaries ---- *)
+Section Utf8.
+Hypothesis IP_ascii : forall l, IP l -> all_ascii l.
+Hypothesis MP_clean : forall m, MP m -> Forall (fun c => cand_clean c = true) m.
+
+Lemma seg_inv_clean g : seg_inv g -> seg_clean g.
+Proof.
+  intros (_ & H) cd Hcd. unfold selected_cand, cand_at in Hcd. destruct (s_menu g) as [m|] eqn:Em; [|discriminate].
+  destruct (H m eq_refl) as (_ & _ & Hmp). unfold menu_at in Hcd.
+  destruct (menu_count m <=? s_sel g)%N; [discriminate|]. apply nth_error_In in Hcd.
+  apply (proj1 (Forall_forall _ _) (MP_clean m Hmp) cd Hcd).
+Qed.
+
+Lemma view_utf8 s : sinv s -> wf_view_utf8b (fst (view_of cfg s)) = true.
+Proof.
+  intros (Hc & Hs & Hi & Hci). unfold view_of.
+  destruct (ctx_commit_text (st_ctx s)) as [pv ok2]. destruct (menu_view cfg (st_ctx s)) as [mv ok3]. cbn [fst].
+  unfold wf_view_utf8b. cbn [v_preedit]. destruct (is_composing (st_ctx s)); [|reflexivity].
+  unfold ctx_preedit. apply comp_preedit_utf8.
+  - apply IP_ascii, Hci.
+  - apply IP_ascii, Hi.
+  - apply Forall_forall. intros g Hg. apply seg_inv_clean. apply (proj1 (Forall_forall _ _) Hs g Hg).
+  - assert (Hp : comp_prompt (cx_comp (st_ctx s)) = []).
+    { unfold comp_prompt, sg_back. destruct (sg_segs (cx_comp (st_ctx s))) as [|g r] eqn:E; [reflexivity|].
+      cbn. inversion Hs as [|? ? Hg _]. apply Hg. }
+    rewrite Hp. destruct (get_option (st_ctx s) opt_soft_cursor); reflexivity.
+Qed.
+
+Lemma step_utf8 s o : sinv s -> op_ok o -> wf_obs_utf8b (snd (step cfg translate s o)) = true.
+Proof.
+  intros H Ho. unfold step. destruct (cx_err (st_ctx s)); [reflexivity|].
+  pose proof (exec_inv s o H Ho) as H1.
+  destruct (exec cfg translate s o) as [s1 r]. cbn [fst] in H1.
+  pose proof (view_utf8 s1 H1) as Hv. destruct (view_of cfg s1) as [v ve]. cbn [fst] in Hv.
+  destruct (cx_err (st_ctx (match ve with Some e => st_with_ctx s1 (ctx_fail (st_ctx s1) e) | None => s1 end)));
+    [reflexivity | exact Hv].
+Qed.
+
+Lemma run_from_utf8 ops : forall s, sinv s -> Forall op_ok ops ->
+  forallb wf_obs_utf8b (snd (run_from cfg translate s ops)) = true.
+Proof.
+  induction ops as [|o r IH]; intros s H Hops; [reflexivity|]. cbn [run_from].
+  inversion Hops as [|? ? Ho Hr]; subst.
+  pose proof (step_utf8 s o H Ho) as Hw. pose proof (step_inv s o H Ho) as Hi.
+  destruct (step cfg translate s o) as [s1 ob]. cbn [fst snd] in *.
+  specialize (IH s1 Hi Hr). destruct (run_from cfg translate s1 r) as [s2 obs]. cbn [snd forallb] in *.
+  now rewrite Hw, IH.
+Qed.
+
+Theorem wf_reported_utf8_gen ops :
+  Forall op_ok ops -> forallb wf_obs_utf8b (snd (run cfg translate ops)) = true.
+Proof. apply run_from_utf8, init_inv. Qed.
+End Utf8.
+
 End Wf.
+
+(** ---- the two instances ---- *)
+Theorem wf_reported (cfg : config) (translate : bytes -> seginfo -> list cand) :
+  (1 <= cf_page_size cfg)%Z ->
+  (forall i s, (Z.of_nat (length (translate i s)) + cf_page_size cfg < 2147483648)%Z) ->
+  cf_del_checked cfg = true ->
+  forall ops, forallb wf_obsb (snd (run cfg translate ops)) = true.
+Proof.
+  intros Hps Hlen Hdel ops.
+  eapply wf_reported_gen with (MP := fun _ => True) (IP := fun _ => True); eauto.
+  apply Forall_forall. intros o _. destruct o; exact I.
+Qed.
+
+Definition op_ascii (o : op) : Prop := match o with OpSetInput v => all_ascii v | _ => True end.
+
+Lemma ascii_key z : (32 <= z < 127)%Z -> all_ascii [byte_of_N (Z.to_N z)].
+Proof.
+  intros H. constructor; [|constructor]. unfold is_ascii, byte_of_N, N_of_byte.
+  destruct (Byte.of_N (Z.to_N z)) as [b|] eqn:E; [|reflexivity].
+  apply Byte.to_of_N in E. rewrite E. apply N.ltb_lt. lia.
+Qed.
+
+Theorem wf_reported_utf8 (cfg : config) (translate : bytes -> seginfo -> list cand) :
+  (1 <= cf_page_size cfg)%Z ->
+  (forall i s, (Z.of_nat (length (translate i s)) + cf_page_size cfg < 2147483648)%Z) ->
+  cf_del_checked cfg = true ->
+  (forall i s, all_ascii i -> Forall (fun c => cand_clean c = true) (translate i s)) ->
+  forall ops, Forall op_ascii ops -> forallb wf_obs_utf8b (snd (run cfg translate ops)) = true.
+Proof.
+  intros Hps Hlen Hdel Hclean ops Hops.
+  eapply wf_reported_utf8_gen with (MP := Forall (fun c => cand_clean c = true)) (IP := all_ascii); eauto.
+  all: try (intros; apply Hclean; assumption).
+  - constructor.
+  - intros n l; apply all_ascii_firstn.
+  - intros n l; apply all_ascii_skipn.
+  - intros a b Ha Hb. apply Forall_app; split; assumption.
+  - apply ascii_key.
+Qed.
